@@ -439,6 +439,25 @@ def r6_memo_monotone(c, facts):
                 calls = {P.strip(x).split('::')[-1] for x, _, _ in sl['calls']}
                 if calls or not fields <= {'no_cache'}:
                     bad.append((t.get('ln'), sorted(calls), sorted(fields)))
+                # the tested value may be a bool computed by earlier branches (`if matches!(&r, Err(e) if <guard>) { return }`):
+                # the switches that decide which constant it gets are conditions of the store too
+                defs = [(bi, d) for l in [t['discr']['l']] for kind, bi, d in idx.get(l, []) if kind == 'assign' and d['rv']['r'] == 'use' and d['rv']['op'].get('o') == 'const']
+                if len(defs) >= 2 and len({d['rv']['op'].get('val') for _, d in defs}) == 2:
+                    tdefs = {bi for bi, d in defs if d['rv']['op'].get('val') == '1'}
+                    fdefs = {bi for bi, d in defs if d['rv']['op'].get('val') != '1'}
+                    for b2, blk2 in fn.blocks():
+                        t2 = blk2['term']
+                        if b2 == b or t2['t'] != 'switch' or 'l' not in t2['discr']:
+                            continue
+                        sig = set()
+                        for x in fn.succ(b2):
+                            r2 = fn.reachable_from(x, avoid={b})
+                            sig.add((bool(tdefs & r2), bool(fdefs & r2)))
+                        if len(sig) > 1:
+                            sl2 = MF.slice_back(fn, t2['discr']['l'], idx)
+                            c2 = {P.strip(x).split('::')[-1] for x, _, _ in sl2['calls']}
+                            if c2:
+                                bad.append((t2.get('ln'), sorted(c2), ['<decides the tested flag>']))
         if bad:
             c.bad(R, '%s:conditional-on-more-than-the-switch' % q.split('::')[-1], '%s reaches %s under a condition on %s: some results are not memoised although caching is on (work is no longer linear beyond that condition)' % (q, callee, bad), fn=q)
         else:
@@ -571,7 +590,47 @@ def r11_no_scan(c, facts, rule='C12.R11'):
     c.floor(R, 'token reads in the parsing context and the productions', n, 8)
 
 
+def r12_compose_shallow(c, facts, rule='C12.R12'):
+    """attaching a parsed child to its parent costs one arena operation per child handed over: what compose / compose_node
+    reach inside the model crate neither recurses nor walks the children of a node. Copying an already attached
+    (memoised) subtree instead of re-parenting it multiplies the arena, and the time, by the nesting depth wherever a
+    backtracked alternative composes the same child again."""
+    R = c.rule(rule, 'COMPOSE-SHALLOW: composing a node does constant work per child: nothing reached from Context::compose / compose_node recurses or walks below the children it is given')
+    cg = facts.callgraph()
+    n = 0
+    for q in ('oal_model::grammar::Context::compose', 'oal_model::grammar::Context::compose_node'):
+        root = c.anchor(R, q)
+        seen, work = set(), [root.id]
+        while work:
+            fid = work.pop()
+            if fid in seen:
+                continue
+            seen.add(fid)
+            for x in cg.get(fid, ()):
+                g = facts.fns.get(x)
+                if g is not None and g.crate == 'oal_model' and g.mir:
+                    work.append(x)
+        n += len(seen)
+        deep = []
+        for fid in sorted(seen):
+            g = facts.fns[fid]
+            callees = {x for x in cg.get(fid, ())}
+            derived = any(k in g.qname for k in (' as std::clone::Clone>', ' as std::fmt::Debug>', ' as std::cmp::PartialEq>', ' as std::hash::Hash>'))
+            if fid in callees and not derived:
+                deep.append('%s:recursive' % g.qname.split('::', 1)[-1])
+            for _, t in g.calls():
+                nm = P.strip((callee_of(t) or {}).get('def', '')).split('::')[-1]
+                if nm in ('children', 'reverse_children', 'descendants', 'traverse', 'following_siblings'):
+                    deep.append('%s:%s' % (g.qname.split('::', 1)[-1], nm))
+        if deep:
+            c.bad(R, 'compose-walks-subtree:%s' % ','.join(sorted(set(deep))[:3]), '%s reaches %s: attaching a child is no longer constant work, a memoised subtree composed again by a backtracked alternative is walked (copied) every time' % (q, sorted(set(deep))))
+        else:
+            c.ok(R, {'fn': q, 'functions reached in oal_model': len(seen)})
+    c.floor(R, 'functions reached from compose', n, 4)
+
+
 def run(c, facts):
+    c.run(r12_compose_shallow, facts)
     c.run(r11_no_scan, facts)
     c.run(r10_wrapper_always_memoises, facts)
     c.run(r9_context_state, facts)
